@@ -11,6 +11,26 @@ CHECKS = {
          "Every crypt-table entry and every ≤2-byte UTF-8 string is compared with an independent transcription of the published MPQ hash for all four hash types; 60k (quick) / 2M (thorough) generated names add equality, case/slash invariance and het_hash-vs-lookup3 for widths 8..64; the cipher is inverted and compared with the reference for every small length and for random buffers up to 64 KiB incl. lengths not divisible by 4. Exploration is the right level: the domain is infinite, the small sub-domains are enumerated completely.",
          "Trusted: my reference transcriptions (self-checked against published constants: (hash table)/(block table) keys, spec hash examples, lookup3 driver vectors). Non-UTF-8 byte strings cannot be passed through the &str API. Cipher-vs-reference equality is not demanded for key 0.",
          "DESIGN.md §4 C04"),
+ "C01": ("exploration",
+         "proptest-generated archive specs + bounded-exhaustive configuration grid; round-trip oracle against generator ground truth, listing and absent-name (collision-searched) probes",
+         "Archives are generated over version × sector shift × CRC × attributes × listfile × table compression × per-file method/encryption/size class/content class (sizes placed at S−1, S, S+1, kS/2±2; content that makes some sectors raw and others compressed); every added file is read back under five spellings and compared with the generator's bytes, the listing is compared as a set with sizes, and never-added names (edits, prefixes, names searched to collide with a hash-table start slot or an 8-bit HET hash) must be not-found. A deterministic grid (version × shift{0,3} × 12 selectors × 3 encryption modes × CRC × 9 size classes × content) reaches every essential class whatever the seed. Exploration, not proof: the space is unbounded.",
+         "Lossy ADPCM selectors: only length compared. Logical duplicate names are not generated. Archives > 4 GiB out of reach. Known genuine defects (PKWare decoder, ADPCM+CRC, ADPCM|bzip2, bomb-ratio rejection) are listed in known_findings.json and skipped per file so the rest of each archive is still judged.",
+         "DESIGN.md §4 C01"),
+ "C02": ("exploration",
+         "two-way differential against an independent MPQ reader/writer (refmpq) written from the published format; proptest-generated archives on both sides + grids",
+         "Direction A parses ArchiveBuilder output with refmpq (header fields, table keys, reference probing, per-sector method bytes, standard zlib/bzip2 streams, file keys from the plain name, trailing bytes in clear) and demands bit-identical extraction; direction B serialises abstract archives with refmpq's writer (collision chains through DELETED markers, gaps, reversed order, header behind junk at a 512-aligned offset, single-unit and sectored, raw-sectored uncompressed files, encrypted/fix-key) and demands that Archive::open reads every file bit-identically under each spelling and does not find deleted names. The reference must read its own output first (else exit 2).",
+         "The reference is my reading of the published format, not StormLib itself. Subset: V1/V2, classic tables, none/zlib/bzip2, sector CRC off.",
+         "DESIGN.md §4 C02"),
+ "C07": ("exploration",
+         "proptest-generated (source archive × rebuild options) + 4×4 version grid; oracle = generator ground truth vs target contents, listing, summary counts, compare_archives (with metamorphic control)",
+         "Sources from the shared generator that read back correctly are rebuilt under generated options; every expected name must read bit-identically from the target, nothing unexpected may be listed, skip filters must be honoured, summary counts must equal what is in the archives, and compare_archives must report no content difference — the comparator itself is validated by a twin/one-byte-different control so an always-identical comparator cannot pass.",
+         "A rebuild returning Err is accepted (not silent loss) and counted; listfile-less sources have no listed names, so only 'Ok but files missing' is judged there.",
+         "DESIGN.md §4 C07"),
+ "C09": ("exploration",
+         "differential: parallel interfaces vs one sequential handle, proptest request lists with duplicates/missing names, grid over both code paths (≤1000 / >1000 / >5000), repetition under CPU contention",
+         "Every parallel interface (extract_with_config on both code paths, ParallelArchive::*, multi-archive helpers) must return one slot per request in request order, each equal to the sequential read (bytes or error kind); skip_errors isolates a missing name to its own slot, without it the call fails as a whole; repeated calls (half under 16 busy threads) must be identical.",
+         "The schedule is rayon's; scheduling independence is sampled, not proved. Thread count 0 / batch size 0 outside the domain.",
+         "DESIGN.md §4 C09"),
 }
 
 NOT_YET = "check not built yet in this round (planned in DESIGN.md §4); not claimed until it runs silently on the unchanged tree"
